@@ -22,8 +22,21 @@ void vstl_length_error(void) { ir_throw(); }
 void vstl_access(uint8_t* c) { (void)c; }
 #endif
 int __cxa_atexit(void (*f)(void*), void* a, void* d) { (void)f; (void)a; (void)d; return 0; }
+#ifdef ARENA_NEW
+/* operator new as a bump allocator over ONE static arena: every `new` returns arena + offset, so pointers to
+ * heap objects have a single target object (CBMC case-splits every access over all candidate dynamic objects
+ * otherwise).  Blocks are never freed.  Overflow between blocks is not detectable in this mode (memory-safety
+ * obligations - C17 - use the malloc model below instead). Exceeding the arena = outside the bound. */
+#ifndef ARENA_WORDS
+#define ARENA_WORDS 1024
+#endif
+static uint64_t ir_arena[ARENA_WORDS]; static uint64_t ir_arena_used;
+uint8_t* _Znwm(uint64_t n) { uint64_t w = (n + 7) / 8; if (w == 0) w = 1; if (ir_arena_used + w > ARENA_WORDS) { __CPROVER_assume(0); } uint8_t* p = (uint8_t*)&ir_arena[ir_arena_used]; ir_arena_used += w; return p; }
+uint8_t* _Znam(uint64_t n) { return _Znwm(n); }
+#else
 uint8_t* _Znwm(uint64_t n) { uint8_t* p = malloc(n); __CPROVER_assume(p != 0); return p; }
 uint8_t* _Znam(uint64_t n) { uint8_t* p = malloc(n); __CPROVER_assume(p != 0); return p; }
+#endif
 void _ZdlPv(uint8_t* p) { (void)p; }
 void _ZdaPv(uint8_t* p) { (void)p; }
 void _ZdlPvm(uint8_t* p, uint64_t n) { (void)p; (void)n; }
